@@ -136,7 +136,7 @@ def _compile_one(job):
     ex.EXPERIMENTAL_FEATURES_ENABLED = True
     out = {}
     try:
-        mod = gp.load(src)
+        mod = gp.load(src, name="c10prog")
         try:
             d = getattr(mod, entry)
             pkg = d.compile_function()
@@ -156,12 +156,22 @@ def _compile_one(job):
 
 
 def fork_map(jobs, procs=12):
+    """One forked, pristine compiler per job (slow: a fork of the loaded interpreter costs seconds here)."""
     import pool
 
     pool._init()
     ctx = mp.get_context("fork")
     with ctx.Pool(procs, maxtasksperchild=1) as p:
         return p.map(_compile_one, jobs, chunksize=1)
+
+
+def shared_map(jobs):
+    """Jobs share long-lived workers (fast). Output of a compile does not depend on what the worker compiled
+    before (that is C11, and holds on this tree); any difference found this way is re-confirmed with
+    `fork_map` before it is reported, so session history can never be mistaken for order dependence."""
+    import pool
+
+    return pool.map_jobs(_compile_one, jobs, chunksize=2)
 
 
 CHILD = r"""
@@ -177,7 +187,7 @@ progs = json.load(open(sys.argv[2]))
 out = {}
 for name, src in progs:
     try:
-        mod = gp.load(src)
+        mod = gp.load(src, name="c10prog")
         try:
             pkg = getattr(mod, "f").compile_function()
             out[name] = ["ok", hashlib.sha256(pkg.to_bytes()).hexdigest()]
@@ -218,7 +228,7 @@ def run(ctx):
 
     progs = [(n, s) for n, s in df_corpus.programs(ctx.seed, ctx.pick(24, 600), types=("int", "other"))] + EXTRA
     # ---- (1) schedule enumeration ------------------------------------------------------------
-    native = fork_map([(s, "f", None, 0) for _, s in progs])
+    native = shared_map([(s, "f", None, 0) for _, s in progs])
     for (n, _), r in zip(progs, native):
         if r["status"] in ("crash", "render-crash"):
             ctx.log(f"note: {n} {r['status']} ({r['text'][:100]}) - reported by C02")
@@ -238,7 +248,16 @@ def run(ctx):
             jobs.append((s, "f", vec, 0))
             owner.append((pi, vec))
     ctx.log(f"{len(progs)} programs, {sum(len(v) for v in scheds.values())} schedules from TLC, {len(jobs)} non-native replays")
-    replays = fork_map(jobs)
+    replays = shared_map(jobs)
+    ctx.log("replays done")
+    suspicious = [i for i, ((pi, vec), r) in enumerate(zip(owner, replays))
+                  if (r["status"], r.get("sha"), r.get("text")) != (native[pi]["status"], native[pi].get("sha"), native[pi].get("text"))]
+    if suspicious:   # confirm in pristine forks: native and the schedule, both
+        ctx.log(f"{len(suspicious)} differing replays: confirming in pristine forks")
+        conf = fork_map([jobs[i] for i in suspicious] + [(progs[owner[i][0]][1], "f", None, 0) for i in suspicious])
+        for k, i in enumerate(suspicious):
+            replays[i] = conf[k]
+            native[owner[i][0]] = conf[len(suspicious) + k]
     sites_with_choice = collections.Counter()
     for r in native:
         for site, k in r["log"]:
@@ -259,6 +278,7 @@ def run(ctx):
                           {"src": progs[pi][1], "schedule": vec})
     # ---- (2) fresh processes, different hash seeds and heap layouts ------------------------------
     outs = fresh_process_runs(ctx, progs, ctx.pick(6, 24))
+    ctx.log("fresh processes done")
     for n, _ in progs:
         vals = {json.dumps(o.get(n)) for o in outs}
         if len(vals) > 1:
@@ -267,8 +287,11 @@ def run(ctx):
                           f"PYTHONHASHSEED/heap layout: {sorted(vals)[0][:300]} ... {sorted(vals)[1][:300]}",
                           {"src": dict(progs)[n]})
     # native fork (hooks on, declining scheduler) must agree with hooks-off fresh processes
+    unstable = {n for n, _ in progs if len({json.dumps(o.get(n)) for o in outs}) > 1}
     for (n, _), r in zip(progs, native):
         o = outs[0].get(n)
+        if n in unstable:
+            continue   # already reported as hash-seed dependent; nothing to compare against
         if o and o[0] in ("ok", "rejected") and r["status"] in ("ok", "rejected"):
             if (o[0], o[1]) != (r["status"], r.get("sha") or r.get("text")):
                 raise lib.Machinery(f"hooks change the compiler's output for {n}: {o[0]} vs {r['status']}")
@@ -287,6 +310,7 @@ def run(ctx):
                 if k not in seen:
                     seen.add(k)
                     graphs.append(g)
+    ctx.log(f"in-situ graphs for the evidence model: {len(graphs)}")
     evdep = 0
     if graphs:
         gp_ = os.path.join(ctx.workdir, "ev_graphs.json")
